@@ -314,6 +314,28 @@ func informativeStatuses(col string, wild, other byte) (canBe, canNotBe bool) {
 	return
 }
 
+// informativeStatusesFolded: the same on a column holding lower case, where only the case-folded readings are
+// admissible (a and A are one character); a lower case wildcard may be counted as a character or not.
+func informativeStatusesFolded(col string, wild, other byte) (canBe, canNotBe bool) {
+	for _, rd := range allReadings(nil, nil, nil, true) {
+		if !rd.fold {
+			continue
+		}
+		twice := 0
+		for _, v := range rd.kept(col, wild, other, true) {
+			if v >= 2 {
+				twice++
+			}
+		}
+		if twice >= 2 {
+			canBe = true
+		} else {
+			canNotBe = true
+		}
+	}
+	return
+}
+
 // ---------------------------------------------------------------- Clustal conservation
 
 var clustalStrong = []string{"STA", "NEQK", "NHQK", "NDEQ", "QHRK", "MILV", "MILF", "HY", "FYW"}
